@@ -28,15 +28,15 @@ CHECKS.update({
   note="pre-state constructed directly under the representation invariant (one kind per name, one metric per name and program); per-program VM/channel isolation in CompileAndRun is by construction and outside the solver question"),
  "C12": dict(level="model_checking", ref="DESIGN.md 4 C12",
   text="fault-point bounded model checking of Collect, writeSocketMetrics, HandleVarz and HandleGraphite on the real store/metric/emitter code: every subset of refused Prometheus constructor calls, a write failure at any write, cancellation before or at any write; afterwards every metric lock is free, no interpreted goroutine is left blocked, and a further update completes",
-  note="lock and goroutine state read from the engine's lock/goroutine tables; one deterministic schedule of the emitter goroutine; client-library constructors, push connection and ResponseWriter are fault-injecting stubs (same stubs natively for replay)"),
+  note="bounds: quick 1 metric x <=2 label sets; thorough 1 metric x <=3 label sets and 2 metrics x <=1 label set; lock and goroutine state read from the engine's lock/goroutine tables; one deterministic schedule of the emitter goroutine; client-library constructors are recording stubs that refuse what client_golang refuses (invalid/duplicate label name, non-UTF-8 value, ...) and additionally any solver-chosen call; push connection and ResponseWriter are fault-injecting harness types (natively: fault-injecting wrappers around the real constructors)"),
  "C13": dict(level="model_checking", ref="DESIGN.md 4 C13",
-  text="the real Collect on a symbolic store (any kind/type, symbolic int64/float64 values incl. NaN/Inf, symbolic label bytes and timestamps, prog label and timestamps on/off): the recorded constructor calls are matched one-to-one with the store's label sets - name, label names/values, value as float64, value type, timestamp iff enabled, histogram cumulative counts; refused label sets are skipped and all others still emitted",
-  note="claim is to the client-library boundary (arguments of NewConstMetric/NewConstHistogram/NewMetricWithTimestamp); expfmt text rendering and registry checks outside; 1 metric (thorough 2) x <=2 label sets"),
+  text="the real Collect on a symbolic store (any kind/type, symbolic int64/float64 values incl. NaN/Inf, symbolic label bytes and timestamps, prog label and timestamps on/off): the recorded constructor calls are matched one-to-one with the store's label sets - name, label names/values, value as float64, value type, timestamp iff enabled, histogram cumulative counts; label sets the client library refuses (modelled: the harness key is either a valid label name or `key-a`, label bytes may be non-UTF-8) or that the solver refuses are skipped and exactly all others are emitted",
+  note="claim is to the client-library boundary (arguments of NewConstMetric/NewConstHistogram/NewMetricWithTimestamp); expfmt text rendering and registry checks outside; quick: 1 metric x <=2 label sets; thorough: that plus 2 metrics x <=1 label set"),
  "C14": dict(level="model_checking", ref="DESIGN.md 4 C14",
   text="store part: Store.Add(m') for a re-declared metric from an arbitrary valid store - kept declaration keeps datum objects and pending expiry, changed keys drop data, a refused Add leaves the store unchanged, the old metric never stays next to the new one (one known finding listed: type/source change leaves a duplicate)",
   note="store part only so far; loader part (CompileAndRun) pending; same harness as C06 with the C14.* assertions"),
  "C22": dict(level="model_checking", ref="DESIGN.md 4 C22",
-  text="metamorphic check of metricToGraphite/Statsd/Collectd/Varz on the real code: the record for label set 2 of a two-label-set metric equals the record of a metric holding only that label set, for every kind/type incl. graphite histograms, with symbolic values, timestamps, observations and label letters; records of different label sets differ",
+  text="metamorphic check of metricToGraphite/Statsd/Collectd/Varz on the real code: the record for label set 2 of a two-label-set metric equals the record of a metric holding only that label set, for every kind/type incl. graphite histograms, with symbolic values, timestamps, observations and label letters; records of different label sets differ (records compared as sets of lines: graphite histogram lines are written in Go map order)",
   note="fmt.Sprintf etc. are engine models producing opaque formatted-number pieces (equal iff arguments equal); JSON export excluded (encoding/json reflection not encodable)"),
 })
 
